@@ -837,6 +837,8 @@ class Interp:
       start = args[1] if len(args) > 1 else kwargs.get('start', 0)
       return [(i + start, x)
               for i, x in enumerate(self.iterate(args[0], node))]
+    if name == 'reversed' and len(args) == 1:
+      return list(reversed(self.iterate(args[0], node)))
     if name == 'zip':
       return [tuple(t) for t in zip(*[self.iterate(a, node) for a in args])]
     if name in ('min', 'max'):
